@@ -885,6 +885,8 @@ class SimpleShape(DefinedShape):
             if not self.contains_point(point, boundary):
                 return False
         inters = jordan & self.jordans[0]
+        if not boundary and len(inters):
+            return False  # A point of the curve is on the boundary
         uvals = {}
         for a, _, u, _ in inters:
             if a not in uvals:
